@@ -35,28 +35,52 @@ def run_kani_units(prop, tier, root, hs, where, units, replays, jobs):
     for cfg, group in by_cfg.items():
         ndf, feats = BUILD_CONFIGS[cfg]
         work = os.path.join(root, f"{where}-{cfg}")
-        repo = scratch.copy_repo(work)
-        scratch.apply_overlay(repo, infile=True, prepend=True)
-        cwd = repo
-        manifest = None
-        if where == "ext":
-            from . import extcrate
-            cwd = extcrate.materialise(work, repo, cfg)
         tgt = os.path.join(work, "kani-target")
-        names = [h["name"] for h in group]
         tmo = 1500 if tier == "thorough" else 420
-        res, build_ok, out, wall = kani.run(cwd, tgt, names, jobs=min(jobs, max(1, len(names))),
-                                            features=feats if where == "infile" else None,
-                                            no_default_features=ndf if where == "infile" else False,
-                                            harness_timeout=tmo, total_timeout=tmo * 3 + 600,
-                                            log_path=os.path.join(VERIF, "evidence", "logs", f"{prop}-{where}-{cfg}.log"))
-        log(f"kani {where}/{cfg}: {len(names)} harnesses, build_ok={build_ok}, wall={wall:.0f}s")
+        skipped = set()
+        stale = {}
+        for attempt in range(4):
+            repo = scratch.copy_repo(work)
+            scratch.apply_overlay(repo, infile=True, prepend=True, skip=skipped)
+            cwd = repo
+            if where == "ext":
+                from . import extcrate
+                cwd = extcrate.materialise(work, repo, cfg, skip=skipped)
+            live = [h for h in group if os.path.relpath(h["file"], os.path.join(VERIF, "overlay", "infile")) not in skipped
+                    and os.path.basename(h["file"]) not in skipped]
+            names = [h["name"] for h in live]
+            if not names:
+                res, build_ok, out, wall = {}, True, "", 0
+                break
+            res, build_ok, out, wall = kani.run(cwd, tgt, names, jobs=min(jobs, max(1, len(names))),
+                                                features=feats if where == "infile" else None,
+                                                no_default_features=ndf if where == "infile" else False,
+                                                harness_timeout=tmo, total_timeout=tmo * 3 + 600,
+                                                log_path=os.path.join(VERIF, "evidence", "logs", f"{prop}-{where}-{cfg}.log"))
+            log(f"kani {where}/{cfg}: {len(names)} harnesses, build_ok={build_ok}, wall={wall:.0f}s")
+            if build_ok:
+                break
+            # a harness module that no longer compiles (renamed / re-typed private item) is dropped; the others still run
+            bad = stale_overlay_files(out, where)
+            new = bad - skipped
+            if not new:
+                break
+            for b in new:
+                stale[b] = "\n".join(l for l in out.splitlines() if l.startswith("error"))[:600]
+            skipped |= new
+            log(f"  stale harness module(s) dropped: {sorted(new)}")
         for h in group:
             r = res.get(h["name"])
             u = {
                 "engine": f"kani-{where}", "name": h["name"], "functions": h["fns"], "bounds": h["bounds"],
                 "build": cfg, "inst": h["inst"],
             }
+            hrel = os.path.relpath(h["file"], os.path.join(VERIF, "overlay", "infile"))
+            if hrel in skipped or os.path.basename(h["file"]) in skipped:
+                u.update(status="error", note="stale harness module (no longer compiles against this tree; the items it names changed): " + stale.get(hrel, stale.get(os.path.basename(h["file"]), ""))[:300],
+                         obligations=0, discharged=0, solver_s=0)
+                units.append(u)
+                continue
             if not build_ok or r is None:
                 u.update(status="error", note="harness did not build or was not run (stale harness / renamed item?)" if not build_ok
                          else "harness not found in Kani output", obligations=0, discharged=0, solver_s=0)
@@ -85,6 +109,28 @@ def run_kani_units(prop, tier, root, hs, where, units, replays, jobs):
                 u["replay"] = rp
                 replays.append((h["name"], ok, rp, r.failed_checks[:3]))
             units.append(u)
+
+
+def stale_overlay_files(out, where):
+    """Overlay files named in compile errors (`--> src/<file>:<line>`), relative to overlay/infile (or ext src)."""
+    import re
+    bad = set()
+    infile_dir = os.path.join(VERIF, "overlay", "infile")
+    ext_dir = os.path.join(VERIF, "harness_ext", "src")
+    lines = out.splitlines()
+    for i, l in enumerate(lines):
+        if not l.startswith("error"):
+            continue
+        for j in range(i + 1, min(i + 6, len(lines))):
+            m = re.match(r"\s*--> (?:src/)?(\S+?\.rs):(\d+)", lines[j])
+            if m:
+                rel = m.group(1)
+                if where == "infile" and os.path.exists(os.path.join(infile_dir, rel)):
+                    bad.add(rel)
+                elif where == "ext" and os.path.exists(os.path.join(ext_dir, os.path.basename(rel))):
+                    bad.add(os.path.basename(rel))
+                break
+    return bad
 
 
 def classify(prop, units, known):
